@@ -205,6 +205,8 @@ def run(ctx):
                         why = 'gate polarity=%s requested-position=%s forward(candidate)=%s' % (opw.truth(k), pose_ok, fk_ok)
                 if g[1] in fullp and want_gate == 'xyz':
                     why = 'the 5-DOF solver gates with the full-pose check (it would reject every tool-axis-only solution)'
+            if b is five and xyz_inlined and not gated and why == 'no dominating gate':
+                continue          # the comparison is written out at the push: decided above from the symbolic run (R01.1 .../returned)
             ctx.check(gated, 'R01.1', key, b.where(bi), b.path, 'a candidate is pushed into the result without passing the FK cross-check against the requested pose: ' + why,
                       found=show(elem, maxdepth=3), detail='gated, tolerances %s' % (tols,))
             if gated:
